@@ -3,6 +3,6 @@
     OCaml natives); no Extract Constant / Extract Inductive of our own:
     nat, N, Z, positive stay the extracted inductives. *)
 From Coq Require Import Extraction ExtrOcamlBasic.
-From VFS Require Import Path.Str Core.Types Core.Calls Layer.Config Layer.Run.
+From VFS Require Import Path.Str Core.Types Core.Calls Layer.Config Layer.Run Layer.Conc.
 Extraction Language OCaml.
-Extraction "vfsmodel.ml" run_case prs rnd jn.
+Extraction "vfsmodel.ml" run_case run_conc prs rnd jn.
